@@ -95,11 +95,11 @@ def _base_files(rng=None):
 COMMANDS = [
     ["lint", "--json"], ["lint"], ["lint", "--lines"], ["lint", "--quiet"], ["spdx"],
     ["spdx", "--add-license-concluded", "--creator-organization", "Org"],
-    ["lint-file", "src/a.py", "src/b.c"], ["download", "--all"], ["convert-dep5"], ["supported-licenses"],
+    ["lint-file", "src/a.py", "src/b.c"], ["spdx", "-o", "out.spdx"], ["download", "--all"], ["convert-dep5"], ["supported-licenses"],
     ["annotate", "-c", "Jane", "-l", "MIT", "src/b.c"], ["annotate", "-c", "Jane", "-l", "MIT", "-r", "src"],
     ["annotate", "--contributor", "Bob", "--skip-unrecognised", "-r", "."],
 ]
-READONLY = COMMANDS[:7]
+READONLY = COMMANDS[:8]
 
 
 def _steps_for(rng, cmds, pool_p=0.4, extra=None):
@@ -139,6 +139,10 @@ BROKEN = [
     ("toml-nul", "REUSE.toml", 'version = 1\x00\n'),
     ("toml-empty", "REUSE.toml", ""),
     ("toml-bad-expression", "REUSE.toml", 'version = 1\n[[annotations]]\npath = "**"\nSPDX-License-Identifier = "MIT AND AND"\n'),
+    ("toml-odd-expression-1", "REUSE.toml", 'version = 1\n[[annotations]]\npath = "**"\nSPDX-License-Identifier = "( ) MIT"\n'),
+    ("toml-odd-expression-2", "REUSE.toml", 'version = 1\n[[annotations]]\npath = "**"\nSPDX-License-Identifier = "( OR + mit + GPL-2.0+"\n'),
+    ("toml-odd-expression-3", "REUSE.toml", 'version = 1\n[[annotations]]\npath = "**"\nSPDX-License-Identifier = ["MIT", "WITH", ")("]\n'),
+    ("dep5-odd-expression", ".reuse/dep5", "Format: https://www.debian.org/doc/packaging-manuals/copyright-format/1.0/\n\nFiles: *\nCopyright: 2020 X\nLicense: ( ) MIT\n"),
     ("toml-bad-precedence", "REUSE.toml", 'version = 1\n[[annotations]]\npath = "**"\nprecedence = "sideways"\n'),
     ("toml-missing-path", "REUSE.toml", 'version = 1\n[[annotations]]\nSPDX-License-Identifier = "MIT"\n'),
     ("toml-nested-broken", "src/REUSE.toml", 'version = 1\n[[annotations]\n'),
@@ -153,7 +157,7 @@ BROKEN = [
 ]
 # syntactically broken / undecodable / conflicting: must be exit 2 and name the file
 MUST_BE_2 = {"toml-syntax", "toml-syntax-unterminated", "toml-duplicate-key", "toml-invalid-utf8", "toml-nested-broken",
-             "toml-nested-invalid-utf8", "dep5-syntax", "dep5-garbage", "dep5-invalid-utf8", "conflict"}
+             "toml-nested-invalid-utf8", "dep5-syntax", "dep5-garbage", "dep5-invalid-utf8", "conflict", "conflict-nested"}
 
 WEIRD = [
     ("nul-bytes", "src/w.py", "# SPDX-License-Identifier: MIT\n\x00\x00\x00 binary-ish\n"),
@@ -166,6 +170,10 @@ WEIRD = [
     ("bom", "src/w.py", "﻿# SPDX-FileCopyrightText: 2020 J\n# SPDX-License-Identifier: MIT\n"),
     ("utf16", "src/w.txt", "\udcff\udcfeS\x00P\x00D\x00X\x00-\x00L\x00i\x00c\x00"),
     ("only-nul", "src/w.bin", "\x00" * 5000),
+    ("odd-expr-1", "src/w.py", "# SPDX-License-Identifier: ( ) MIT\n# SPDX-FileCopyrightText: 2020 J\n"),
+    ("odd-expr-2", "src/w.c", "/* SPDX-License-Identifier: ( OR + mit + GPL-2.0+ */\n"),
+    ("odd-expr-3", "src/w.py", "# SPDX-License-Identifier: MIT WITH\n# SPDX-License-Identifier: )(\n# SPDX-License-Identifier: +\n"),
+    ("licenseref-not-utf8", "LICENSES/LicenseRef-Odd.txt", "licence text in latin-1: caf\udce9 \udcff\udcfe\n"),
     ("unparseable-expr", "src/w.py", "# SPDX-License-Identifier: MIT OR OR 0BSD\n# SPDX-FileCopyrightText: 2020 J\n"),
     ("ignore-unbalanced", "src/w.py", "# REUSE-IgnoreEnd\n# SPDX-License-Identifier: MIT\n# REUSE-IgnoreStart\n# SPDX-License-Identifier: Foo\n"),
     ("license-file-weird", "src/w.png.license", "\udcff\x00\x01"),
@@ -180,9 +188,10 @@ def gen_case(seed, tier, index=0):
     case = {"prop": PROP, "seed": seed, "family": fam, "config": [], "must_be_2": False}
     if fam == "broken":
         if rng.chance(0.15):
-            files.append({"path": "REUSE.toml", "content": 'version = 1\n'})
+            where = rng.pick(["REUSE.toml", "REUSE.toml", "src/REUSE.toml", "src/core/deep/REUSE.toml"])
+            files.append({"path": where, "content": 'version = 1\n'})
             files.append({"path": ".reuse/dep5", "content": G.dep5([{"files": "*", "copyright": "2020 X", "license": "MIT"}])})
-            case.update(trigger="conflict", config=["REUSE.toml", ".reuse/dep5"], must_be_2=True, name_any=True)
+            case.update(trigger="conflict" if where == "REUSE.toml" else "conflict-nested", config=[where, ".reuse/dep5"], must_be_2=True, name_any=True)
         else:
             name, path, content = rng.pick(BROKEN)
             files.append({"path": path, "content": content})
@@ -199,12 +208,14 @@ def gen_case(seed, tier, index=0):
                 continue
             seen.add(path)
             files.append({"path": path, "content": content})
+        if any(p == "LICENSES/LicenseRef-Odd.txt" for _, p, _ in picks):
+            files.append({"path": "src/uses_odd.py", "content": "# SPDX-FileCopyrightText: 2020 J\n# SPDX-License-Identifier: LicenseRef-Odd\n"})
         if any(p == "src/w.png.license" for _, p, _ in picks):
             files.append({"path": "src/w.png", "content": "\x89PNG\x00\x00"})
         if rng.chance(0.3):
             files.append({"path": "REUSE.toml", "content": 'version = 1\n[[annotations]]\npath = "src/**"\nprecedence = "aggregate"\nSPDX-FileCopyrightText = "2020 X"\nSPDX-License-Identifier = "MIT"\n'})
         case.update(trigger="weird:" + "+".join(sorted(n for n, _, _ in picks)))
-        target = sorted(seen)[0]
+        target = sorted(p for p in seen if not p.startswith("LICENSES/") or len(seen) == 1)[0]
         cmds = rng.sample(READONLY, 3) + [["lint-file", target],
                                           ["annotate", "-c", "Jane", "-l", "MIT", "--fallback-dot-license", target],
                                           ["annotate", "-c", "Jane", "-l", "MIT", "--skip-existing", "--skip-unrecognised", "-r", "src"]]
